@@ -33,7 +33,9 @@ fn fnum(f: f64) -> String {
 }
 
 /// one operation on any DataType implementor; `own` converts to the code of the owned value
-fn eval<T: DataType + PartialEq<str> + PartialEq<f64> + PartialEq<i64> + PartialEq<bool>>(v: &T, op: &str, arg: &str) -> String {
+fn eval<T: DataType + PartialEq<str> + for<'a> PartialEq<&'a str> + PartialEq<f64> + PartialEq<i64> + PartialEq<bool>>(v: &T, op: &str, arg: &str) -> String {
+    // string equality exists against `str` and against `&str`: both must answer alike
+    let streq = |t: &str| -> String { let (a, c) = (*v == *t, *v == t); if a == c { format!("b:{}", a) } else { "b:str-and-&str-disagree".to_string() } };
     let b = |x: bool| format!("b:{}", x);
     match op {
         "is" => b(match arg {
@@ -56,8 +58,9 @@ fn eval<T: DataType + PartialEq<str> + PartialEq<f64> + PartialEq<i64> + Partial
         "as_i64" => v.as_i64().map_or("none".into(), |i| format!("i:{}", i)),
         "as_f64" => v.as_f64().map_or("none".into(), fnum),
         "as_string" => v.as_string().map_or("none".into(), |s| format!("s:{}", s)),
+        "eq" if arg == "s:12" => streq("12"),
+        "eq" if arg == "s:x" => streq("x"),
         "eq" => b(match arg {
-            "s:12" => *v == *"12", "s:x" => *v == *"x",
             "f:2" => *v == 2.0f64, "f:1.5" => *v == 1.5f64,
             "i:7" => *v == 7i64, "i:12" => *v == 12i64,
             "b:true" => *v == true, "b:false" => *v == false,
